@@ -433,6 +433,32 @@ pub fn check_case(case: &C15Case) -> (Vec<Violation>, Counters) {
           Err(_) => bad("panic", "to_writer", format!("to_writer panicked on a disk error at byte {}: {}", k, sched::take_last_panic().unwrap_or_default())),
         }
       }
+      // a sink that is full: it answers a non-empty write with Ok(0) at byte k
+      for k in ks.iter().copied().filter(|k| *k < j.len() as u64).take(4) {
+        let mut w = SimWriter::new(
+          WriterPlan {
+            fail_at: None,
+            zero_at: Some(k),
+            ..case.writer.clone()
+          },
+          3,
+        );
+        let r = std::panic::catch_unwind(std::panic::AssertUnwindSafe(|| m.clone().to_writer(&mut w)));
+        counters.add("fault:write_zero_fired", w.stats.zero_returns);
+        match r {
+          Ok(Ok(())) => bad(
+            "full_sink_reported_as_success",
+            "to_writer",
+            format!("the sink accepted only {} of {} bytes (it returned Ok(0)), yet to_writer returned Ok", w.accepted.len(), j.len()),
+          ),
+          Ok(Err(_)) => {
+            if !j.as_bytes().starts_with(&w.accepted) {
+              bad("torn_write", "to_writer", format!("after Ok(0) at byte {} the sink holds {:?}", k, String::from_utf8_lossy(&w.accepted)));
+            }
+          }
+          Err(_) => bad("panic", "to_writer", format!("to_writer panicked on a full sink at byte {}: {}", k, sched::take_last_panic().unwrap_or_default())),
+        }
+      }
       (j, spec.clone(), true)
     }
     Doc::Raw { text, expect } => (text.clone(), expect.clone(), false),
